@@ -120,3 +120,25 @@ Proof.
   - split; [discriminate|]. split; [reflexivity|discriminate].
   - split; [discriminate|]. split; [reflexivity|discriminate].
 Qed.
+
+(* the converse direction: nothing failed and the child answered exactly => the wrapper's status is
+   what Wait makes of the child's wait status (in particular the child's own exit code) *)
+Theorem wrapper_io_clean_proof : forall wr fd_child sent records needs child_lines rest t orc_f orc_c st evf evc,
+  wrapper_io_run wr fd_child sent records needs child_lines t orc_f orc_c = (st, evf, evc) ->
+  collect needs child_lines = Some rest -> (wr = B64filter -> rest = 0%nat) ->
+  any_failed evf = false -> any_failed evc = false ->
+  st = Exited (Wait (wstatus t) mod 256).
+Proof.
+  intros wr fd sent records needs lines rest t orc_f orc_c st evf evc. unfold wrapper_io_run.
+  pose proof (feeder_sound wr fd sent orc_f) as Hf.
+  destruct (feeder wr fd sent orc_f) as [[rf ef] of'] eqn:Ef. simpl in Hf. destruct Hf as (Hf1 & Hf2 & _).
+  intros H Hcol Hb64.
+  assert (sound (collector wr needs lines records orc_c) orc_c) as Hc.
+  { unfold collector. rewrite Hcol. destruct wr.
+    - apply bind_sound; [apply bs_write_all_sound|]. intros; apply bs_destroy_sound.
+    - apply bind_sound; [apply bs_write_all_sound|]. intros; apply bs_destroy_sound.
+    - rewrite (Hb64 eq_refl). apply bind_sound; [apply bs_write_all_sound|]. intros; apply bs_destroy_sound. }
+  destruct (collector wr needs lines records orc_c) as [[rc ec] oc'] eqn:Ec. simpl in Hc. destruct Hc as (Hc1 & Hc2 & _).
+  destruct rf as [uf| | |]; try congruence; destruct rc as [uc| | |]; try congruence; inversion H; subst st evf evc; clear H;
+    intros Hnf Hnc; simpl in Hf2, Hc2; try rewrite Hnf in Hf2; try rewrite Hnc in Hc2; try discriminate; reflexivity.
+Qed.
